@@ -174,7 +174,27 @@ func floatBitsIssues(s *sided) []sideIssue {
 				return true
 			}
 		}
-		if len(c.Args) == 1 && s.side(c.Args[0]) == "A" {
+		// the bits of one part of a complex number: the part is a float that == on the complex value compares with ==
+		// (a guard on the whole number does not make the part non-zero)
+		sideArg := func(e ast.Expr) string {
+			for {
+				cv, ok := unparen(e).(*ast.CallExpr)
+				if !ok || len(cv.Args) != 1 {
+					break
+				}
+				if id, ok := cv.Fun.(*ast.Ident); ok && (id.Name == "real" || id.Name == "imag" || id.Name == "float64" || id.Name == "float32") {
+					e = cv.Args[0]
+					continue
+				}
+				if isTypeExpr(s.rs, cv.Fun) {
+					e = cv.Args[0]
+					continue
+				}
+				break
+			}
+			return s.side(e)
+		}
+		if len(c.Args) == 1 && sideArg(c.Args[0]) == "A" {
 			out = append(out, sideIssue{c, fmt.Sprintf("hashes %s by its bit pattern (math.%s) while derived Equal compares the same leaf with ==: +0 and -0 are == but have different bit patterns, so Equal values hash differently", s.rs.src(c.Args[0]), sel.Sel.Name), "float-bits", ""})
 		}
 		return true
